@@ -6,7 +6,9 @@ Local Open Scope N_scope.
 
 Inductive c17_step :=
 | SStore (d : diff)                                   (* writers changed the store: new dump relative to the previous one *)
-| SCompact (now R : N) (lo hi : bytes) (d : diff).    (* scanner.Compact at wall time now (ms); dump afterwards *)
+| SCompact (now R : N) (lo hi : bytes) (oc : list (list rec * outcome)) (d : diff).
+    (* scanner.Compact at wall time now (ms); oc: what writers committed just before each engine delete of
+       the pass (and its outcome; none listed = fault-free); dump afterwards *)
 
 Inductive eng := EMem | EBadger.
 
@@ -18,7 +20,8 @@ Inductive tev :=
 
 Inductive c17_case :=
 | KScan (prefix : bytes) (ttl : N) (support_ttl : bool) (pre : store) (steps : list c17_step)
-        (final : list (bytes * option (N * bytes) * wres))   (* per key: Get(latest), then Create *)
+        (final : list (bytes * option (N * bytes) * option wres * wres))
+                                             (* per key: Get(latest); if present Update at that revision; then Create *)
         (watch_extra : N)                                     (* events delivered beyond those of the writes *)
 | KTtlChoice (prefix : bytes) (events_ttl : N) (k : bytes) (ttls : list N)   (* TTL arguments the engine saw for Create k *)
 | KEngineTtl (e : eng) (prefix : bytes) (ttl_ms : N) (evs : list tev).
@@ -29,18 +32,25 @@ Fixpoint scan_run (ttl : N) (sup : bool) (V : store) (q : list mark) (steps : li
   match steps with
   | [] => Some V
   | SStore d :: t => scan_run ttl sup (apply_diff V d) q t
-  | SCompact now R lo hi d :: t =>
-      let '(q', _, dd) := scanner_compact sup ttl now R lo hi q (init_d V []) in
+  | SCompact now R lo hi oc d :: t =>
+      let '(q', _, dd) := scanner_compact sup ttl now R lo hi q (init_d V oc) in
       let V' := apply_diff V d in
-      if store_eqb (d_store dd) V' then scan_run ttl sup V' q' t else None
+      if store_eqb (sort_by rec_ltb (d_store dd)) V' then scan_run ttl sup V' q' t else None
   end.
 
-Fixpoint final_ok (V : store) (n : N) (fin : list (bytes * option (N * bytes) * wres)) : bool :=
+Fixpoint final_ok (V : store) (n : N) (fin : list (bytes * option (N * bytes) * option wres * wres)) : bool :=
   match fin with
   | [] => true
-  | (k, got, res) :: t =>
+  | (k, got, upd, res) :: t =>
       opt_eqb nb_eqb (get_at V max_rev k) got
-      && (let '(V', r) := do_create V k [120] n in wres_eqb r res && final_ok V' (n + 1) t)
+      && match got, upd with
+         | Some (r, _), Some ur =>
+             let '(V1, u) := do_update V k [121] r n in
+             wres_eqb u ur && (let '(V2, c) := do_create V1 k [120] (n + 1) in wres_eqb c res && final_ok V2 (n + 2) t)
+         | None, None =>
+             let '(V2, c) := do_create V k [120] n in wres_eqb c res && final_ok V2 (n + 1) t
+         | _, _ => false
+         end
   end.
 
 (* ---------- (c) engine TTL ---------- *)
@@ -148,23 +158,31 @@ Fixpoint scan_oracle (prefix : bytes) (ttl : N) (V : store) (marks : list mark) 
   match steps with
   | [] => None
   | SStore d :: t => scan_oracle prefix ttl (apply_diff V d) marks t
-  | SCompact now R lo hi d :: t =>
+  | SCompact now R lo hi oc d :: t =>
       let V' := apply_diff V d in
       let marks' := marks ++ [(R, now)] in
-      let here := fold_left (fun acc x => worse acc (if explained R V x then None else expiry_verdict prefix ttl now marks' V' x))
-                            (removed V V') None in
+      (* what the store would hold had only the writers acted *)
+      let W := apply_env (all_adds oc) V in
+      let here := fold_left (fun acc x => worse acc (if explained R W x then None else expiry_verdict prefix ttl now marks' V' x))
+                            (removed W V') None in
       (* nothing may appear either *)
-      let here := if forallb (fun y => memb y V) V' then here else Some 0 in
+      let here := if forallb (fun y => memb y W) V' then here else Some 0 in
       worse here (scan_oracle prefix ttl V' marks' t)
   end.
 
 (* after expiry a key reads absent and can be created again; no watch event *)
-Fixpoint final_oracle (V : store) (fin : list (bytes * option (N * bytes) * wres)) : bool :=
+(* a key without any record reads absent and can be created; a key that reads present can be updated from
+   the revision it was read at and cannot be created *)
+Fixpoint final_oracle (V : store) (fin : list (bytes * option (N * bytes) * option wres * wres)) : bool :=
   match fin with
   | [] => true
-  | (k, got, res) :: t =>
+  | (k, got, upd, res) :: t =>
       (if existsb (fun y => beqb (rkey y) k) V then true
        else opt_eqb nb_eqb got None && wres_eqb res WOk)
+      && match got with
+         | Some _ => match upd with Some u => wres_eqb u WOk && wres_eqb res WFalse | None => false end
+         | None => wres_eqb res WOk
+         end
       && final_oracle V t
   end.
 
@@ -172,7 +190,7 @@ Fixpoint store_after (V : store) (steps : list c17_step) : store :=
   match steps with
   | [] => V
   | SStore d :: t => store_after (apply_diff V d) t
-  | SCompact _ _ _ _ d :: t => store_after (apply_diff V d) t
+  | SCompact _ _ _ _ _ d :: t => store_after (apply_diff V d) t
   end.
 
 (* engine TTL: every slot written so far is in a dump unless it belongs to an event key and its latest
